@@ -142,8 +142,21 @@ check("C17", "other",
       "through the real serde_yaml round trip. Durations, the other keys, document front-matter and serde_yaml itself are not claimed.",
       E2_NOTE, E2_TECH, "E2", "DESIGN.md §3 C17")
 
+check("C07", "other",
+      "On the MIR of the whole CramParser::parse (+ LineParser, ExpectationMaker::parse; regex engine replaced by lib/miniregex.py): for every "
+      "template document of <= 4/5 lines (title, blank, comment, command, continuation, expectations with inner/leading/trailing blanks, exit "
+      "code; symbolic payload letters) the result is Err or exactly the tests the statement prescribes — command with continuations, "
+      "expectations with indentation removed and other whitespace kept, exit code, line number, title where unambiguous, Cram defaults. One "
+      "genuine finding (output lines before any command are attached to the next command) is recorded. Non-ASCII text and long documents are outside.",
+      E2_NOTE + " Additionally trusts lib/miniregex.py.", E2_TECH, "E2", "DESIGN.md §3 C07")
+check("C10", "other",
+      "Partial: documents whose tests all pass. On the MIR of parse ∘ generate_update for every template Markdown document of <= 4/5 lines (and "
+      "<= 6/7 lines over a reduced template set): update does not crash and returns the document unchanged line for line — prose, foreign "
+      "blocks, comments, commands, expectation lines, text after the last test; an unterminated scrut block only gains its closing fence; "
+      "idempotence on these documents follows. Rewriting of failing tests, front-matter, inline configuration and CRLF documents are not claimed.",
+      E2_NOTE + " Additionally trusts lib/miniregex.py.", E2_TECH, "E2", "DESIGN.md §3 C10")
+
 NA_LIST = [
-    ("C07", "Cram parser: every clause is about string contents inside one regex-calling function; out of reach of Kani (heap/regex) and of control-flow-only MIR execution."),
     ("C12", "Shell-state carry-over is implemented by a bash script; no encoding of bash semantics is available here."),
     ("C18", "File-system / process-exit effects (TempDir Drop, directory uniqueness); outside any encoding available here."),
 ]
